@@ -476,8 +476,14 @@ func serverSide(r *vkit.R) {
 		seen := map[string]bool{}
 		for len(h.ups) < 6 {
 			u := genName(g)
-			if u == "" || len(u) > 64 || seen[u] {
+			if seen[u] { // any bytes: the empty name and 4 KiB names included
 				continue
+			}
+			if u == "" {
+				r.Count("srv_histories_with_empty_upstream_name", 1)
+			}
+			if len(u) >= 4096 {
+				r.Count("srv_histories_with_4KiB_upstream_name", 1)
 			}
 			seen[u] = true
 			h.ups = append(h.ups, u)
